@@ -14,6 +14,8 @@
 #undef private
 #undef protected
 #include "system/SetupSystem.h"
+#include "util/NetworkUtilityFunctions.h"
+#include "util/SocketMultiplexer.h"
 #include "vsched.h"
 #include "mjson.h"
 #include <set>
@@ -51,14 +53,29 @@ static Api A;
 static thread_local uint32 tl_curMsg = 0;     // the Message the calling thread is sending (0 = NULL)
 
 static const uint64 FAR_FUTURE = ((uint64)1)<<60;   // "timed": a real deadline that never passes by itself; the scheduler decides when it fires
-static bool g_timedLoop = false;
+static bool g_timedLoop = false; static int g_loopKind = 0;    // 0 the library's default loop, 1 waits with a deadline, 3 event-driven
 class EchoThread : public Thread {
 public:
    EchoThread(bool sockets) : Thread(sockets) {}
 protected:
-   // the default loop waits without a deadline; the other variant is the loop of testthread.cpp: waits with a deadline, goes round on B_TIMED_OUT
+   // the default loop waits without a deadline; the second variant is the loop of testthread.cpp: waits with a deadline, goes round on B_TIMED_OUT;
+   // the third is event-driven like testserverthread.cpp: select() on the wake-up socket FIRST, then poll until the queue is empty
    virtual void InternalThreadEntry()
    {
+#ifndef VERIF_NO_PRIVATE
+      if (g_loopKind == 3) {
+         SocketMultiplexer mux; bool quit = false;
+         while(!quit) {
+            const int fd = GetInternalThreadWakeupSocket().GetFileDescriptor(); if (fd < 0) break;
+            // this select() is the harness's own, not on a hooked path of the library: announce it to the scheduler the way the library's hook would
+            (void) vs::Yield(vs::YIELD_SOCK_WAIT, &_threadData[MESSAGE_THREAD_INTERNAL], 0);
+            (void) mux.RegisterSocketForReadReady(fd);
+            if (mux.WaitForEvents().IsError()) break;
+            while(true) {MessageRef m; uint32 left = 0; if (WaitForNextMessageFromOwner(m, 0, &left).IsError()) break; if (MessageReceivedFromOwner(m, left).IsError()) {quit = true; break;}}
+         }
+         return;
+      }
+#endif
       if (!g_timedLoop) {Thread::InternalThreadEntry(); return;}
       while(true) {
          MessageRef m; uint32 left = 0;
@@ -91,6 +108,7 @@ static void ObserveEvent(const vs::Event & e)
    else if (e.name == "Dequeue") {M.qlen[(e.a[0] == 0) ? 0 : 1] = e.a[2]; TL("Deq", t, (e.a[0] == 0) ? 0 : 1, e.a[1], e.a[2]);}
    else if (e.name == "Signal")  TL("Signal", t, (e.a[0] == 1) ? 0 : 1, e.a[1]);
    else if (e.name == "EntryCheck") TL("Entry", 'I', -1, e.a[0]);
+   else if (e.name == "StartCheck") TL("OStartChk", 'O', -1, e.a[0]);
 }
 #ifdef VERIF_NO_PRIVATE
 static int DirOfTSD(const void *) {return -1;}
@@ -109,7 +127,7 @@ static void ObserveYield(vs::LThread * me, int kind, const void * obj, long)
 {
    if (kind == vs::YIELD_SOCK_DRAIN) {const int d = DirOfTSD(obj); if (d >= 0) TL("Drain", TName(me->id), d);}
    else if (kind == vs::YIELD_SOCK_CLOSE) TL("Close", 'I', -1);
-   else if (kind == vs::YIELD_THREAD_CREATED) TL("OStart2", 'O', -1);     // sockets allocated, _threadRunning set, thread spawned
+   else if (kind == vs::YIELD_THREAD_CREATED) TL("OStart", 'O', -1);     // sockets allocated, _threadRunning set, thread spawned
 }
 static void ObserveResume(vs::LThread * me, int kind, const void * obj, int result)
 {
@@ -155,9 +173,6 @@ static void OwnerMain()
    for (int round=1; round<=g_plan.rounds; round++) {
       int sent = 0;
       if (round == 1) for (; sent<g_plan.preSends; sent++) {const uint32 m = 10+sent+1; tl_curMsg = m; A.ownerSent.push_back(m); TL("OSend", 'O', -1, m); (void) g_t->SendMessageToInternalThread(GetMessageFromPool(m)); vs::OpBoundary();}
-#ifndef VERIF_NO_PRIVATE
-      TL("OStart", 'O', -1, g_t->_threadData[Thread::MESSAGE_THREAD_INTERNAL]._messages.HasItems() ? 1 : 0);
-#endif
       if (g_t->StartInternalThread().IsError()) M.V("StartInternalThread failed");
       vs::OpBoundary();
       while (sent < g_plan.nMsgs) {
@@ -265,13 +280,37 @@ static void JudgeLongTimeout(int d, const char * who)
 static void NoopHandler(int) {}
 class FreeEchoThread : public Thread {
 public:
-   FreeEchoThread(bool sockets, bool timedLoop) : Thread(sockets), _timedLoop(timedLoop) {}
-   bool _timedLoop;
+   FreeEchoThread(bool sockets, int loopKind) : Thread(sockets), _timedLoop(loopKind == 1), _loopKind(loopKind) {}
+   bool _timedLoop; int _loopKind;     // 0 the library's default loop, 1 waits with a deadline (testthread.cpp), 2 a registered always-writable socket: the wait also returns B_IO_READY (SimulatedMulticastDataIO's loop), 3 event-driven: select() on the wake-up socket first, then poll (testserverthread.cpp)
 protected:
    virtual void InternalThreadEntry()
    {
       f_rng = 0x9e3779b9u ^ (uint32_t) f_progress.load(); if (f_rng == 0) f_rng = 1;
       f_itid = (unsigned long) pthread_self();
+      if (_loopKind == 2) {
+         ConstSocketRef a, b;
+         if ((CreateConnectedSocketPair(a, b).IsOK())&&(RegisterInternalThreadSocket(a, SOCKET_SET_WRITE).IsOK())) {
+            while(true) {
+               MessageRef m; uint32 left = 0;
+               const status_t r = WaitForNextMessageFromOwner(m, MUSCLE_TIME_NEVER, &left);
+               if (r.IsOK()) {if (MessageReceivedFromOwner(m, left).IsError()) break;}
+               else if ((r == B_IO_READY)||(r == B_TIMED_OUT)) {if ((FR()%4) == 0) std::this_thread::yield(); continue;}     // "my socket is writable" (it always is): nothing to write, wait again
+               else break;
+            }
+            (void) UnregisterInternalThreadSocket(a, SOCKET_SET_WRITE);
+         }
+         f_itid = 0; return;
+      }
+      if (_loopKind == 3) {
+         SocketMultiplexer mux; bool quit = false;
+         while(!quit) {
+            const int fd = GetInternalThreadWakeupSocket().GetFileDescriptor(); if (fd < 0) break;
+            (void) mux.RegisterSocketForReadReady(fd);
+            if (mux.WaitForEvents().IsError()) break;
+            while(true) {MessageRef m; uint32 left = 0; if (WaitForNextMessageFromOwner(m, 0, &left).IsError()) break; if (MessageReceivedFromOwner(m, left).IsError()) {quit = true; break;}}
+         }
+         f_itid = 0; return;
+      }
       if (!_timedLoop) {Thread::InternalThreadEntry(); f_itid = 0; return;}
       while(true) {
          MessageRef m; uint32 left = 0;
@@ -292,7 +331,7 @@ protected:
       return B_NO_ERROR;
    }
 };
-struct FreePlan {int rounds, nMsgs, preSends, nExtra; bool timedLoop, signals; uint32 rnd;};
+struct FreePlan {int rounds, nMsgs, preSends, nExtra; bool timedLoop, signals; uint32 rnd; int loopKind;};
 static FreePlan FP; static FreeEchoThread * f_t = NULL; static std::atomic<long> f_ownerSent(0);
 static void FreeTake(int mode)     // 0 poll, 1 wait for ever (only when a reply is certain), 2 wait with a real deadline
 {
@@ -350,9 +389,9 @@ static int Free(uint32 iters, uint32 seed0, bool sockets, const char * outFile)
    long execs = 0, violated = 0, hung = 0, msgs = 0;
    for (uint32 it=0; (it<iters)&&(violated < 6)&&(hung == 0); it++) {
       const uint32 seed = seed0*1000003u+it; std::mt19937 gen(seed*2654435761u+11);
-      FP.rounds = 1+(int)(gen()%2); FP.nMsgs = 1+(int)(gen()%60); FP.preSends = (int)(gen()%4) % (FP.nMsgs+1); FP.nExtra = (int)(gen()%3)*20; FP.timedLoop = (gen()%3) == 0; FP.signals = (sockets)&&((gen()%2) == 0); FP.rnd = gen();
+      FP.rounds = 1+(int)(gen()%2); FP.nMsgs = 1+(int)(gen()%60); FP.preSends = (int)(gen()%4) % (FP.nMsgs+1); FP.nExtra = (int)(gen()%3)*20; FP.loopKind = (int)(gen()%(sockets ? 6 : 3)); if (FP.loopKind >= 4) FP.loopKind = 0; if ((!sockets)&&(FP.loopKind == 2)) FP.loopKind = 1; FP.timedLoop = (FP.loopKind == 1); FP.signals = (sockets)&&(FP.loopKind != 3)&&((gen()%2) == 0); FP.rnd = gen();
       M.Reset(); A.Reset(); f_progress = 0; f_done = false; f_itid = 0; f_handledN = 0; f_nonEmptySince[0] = 0; f_nonEmptySince[1] = 0;
-      f_t = new FreeEchoThread(sockets, FP.timedLoop);
+      f_t = new FreeEchoThread(sockets, FP.loopKind);
       std::thread owner(FreeOwner); std::thread sender; if (FP.nExtra > 0) sender = std::thread(FreeSender);
       long last = -1; int idle = 0;
       while (!f_done.load()) { std::this_thread::sleep_for(std::chrono::milliseconds(2)); const long p = f_progress.load(); if (p != last) {last = p; idle = 0;} else if (++idle > 15000) break; }
@@ -364,7 +403,7 @@ static int Free(uint32 iters, uint32 seed0, bool sockets, const char * outFile)
          violated++;
          mj::Value rec = mj::Value::Obj(); rec.set("free", mj::Value::Bool(true)).set("seed", mj::Value::Int(seed)).set("iteration", mj::Value::Int(it)).set("sockets", mj::Value::Bool(sockets));
          mj::Value va = mj::Value::Arr(); for (size_t k=0; k<M.violations.size(); k++) va.push(mj::Value::Str(M.violations[k])); rec.set("violations", va);
-         mj::Value pl = mj::Value::Obj(); pl.set("msgs", mj::Value::Int(FP.nMsgs)).set("pre_start_sends", mj::Value::Int(FP.preSends)).set("rounds", mj::Value::Int(FP.rounds)).set("extra_sender_msgs", mj::Value::Int(FP.nExtra)).set("internal_loop_waits_with_deadline", mj::Value::Bool(FP.timedLoop)).set("signals", mj::Value::Bool(FP.signals)); rec.set("plan", pl);
+         mj::Value pl = mj::Value::Obj(); pl.set("msgs", mj::Value::Int(FP.nMsgs)).set("pre_start_sends", mj::Value::Int(FP.preSends)).set("rounds", mj::Value::Int(FP.rounds)).set("extra_sender_msgs", mj::Value::Int(FP.nExtra)).set("internal_loop_waits_with_deadline", mj::Value::Bool(FP.timedLoop)).set("internal_loop_kind", mj::Value::Int(FP.loopKind)).set("signals", mj::Value::Bool(FP.signals)); rec.set("plan", pl);
          rec.set("handled_count", mj::Value::Int((int64_t) M.handled.size())).set("replies_count", mj::Value::Int((int64_t) M.replies.size()));
          fprintf(out, "%s\n", mj::ToString(rec).c_str());
       }
@@ -390,7 +429,11 @@ int main(int argc, char ** argv)
       const uint32 seed = seed0*1000003u+it; std::mt19937 gen(seed*2654435761u+7);
       g_plan.nMsgs = 1+(int)(gen()%3); g_plan.preSends = (int)(gen()%3) % (g_plan.nMsgs+1); g_plan.rounds = 1+(int)(gen()%2); g_plan.nExtra = (int)(gen()%3); g_plan.rnd = gen();
       g_plan.timedLoop = (gen()%3) == 0; g_plan.ownerTimed = (gen()%2) == 0; g_plan.intr = (sockets) ? (int)(gen()%3) : 0; g_plan.stuckOnly = (gen()%4) != 0; g_timedLoop = g_plan.timedLoop;
-      char key[64]; snprintf(key, sizeof(key), "%d/%d/%d/%d/%u/%d%d%d", g_plan.nMsgs, g_plan.preSends, g_plan.rounds, g_plan.nExtra, g_plan.rnd%8, (int) g_plan.timedLoop, (int) g_plan.ownerTimed, g_plan.intr); distinct.insert(key);
+      g_loopKind = g_plan.timedLoop ? 1 : 0;
+#ifndef VERIF_NO_PRIVATE
+      if ((sockets)&&((gen()%4) == 0)) {g_loopKind = 3; g_plan.timedLoop = false; g_timedLoop = false; g_plan.intr = 0;}     // event-driven internal thread (its own select() is not interrupted: that would be the harness's business)
+#endif
+      char key[64]; snprintf(key, sizeof(key), "%d/%d/%d/%d/%u/%d%d%d", g_plan.nMsgs, g_plan.preSends, g_plan.rounds, g_plan.nExtra, g_plan.rnd%8, g_loopKind, (int) g_plan.ownerTimed, g_plan.intr); distinct.insert(key);
       g_t = new EchoThread(sockets);
       g_record = (tf != NULL)&&(tracesWritten < (long) ntraces); g_trace.clear();
 #ifdef VERIF_NO_PRIVATE
@@ -412,14 +455,14 @@ int main(int argc, char ** argv)
          violated++;
          mj::Value rec = mj::Value::Obj(); rec.set("seed", mj::Value::Int(seed)).set("iteration", mj::Value::Int(it)).set("sockets", mj::Value::Bool(sockets));
          mj::Value va = mj::Value::Arr(); for (size_t k=0; k<M.violations.size(); k++) va.push(mj::Value::Str(M.violations[k])); rec.set("violations", va);
-         mj::Value pl = mj::Value::Obj(); pl.set("msgs", mj::Value::Int(g_plan.nMsgs)).set("pre_start_sends", mj::Value::Int(g_plan.preSends)).set("rounds", mj::Value::Int(g_plan.rounds)).set("extra_sender_msgs", mj::Value::Int(g_plan.nExtra)).set("internal_loop_waits_with_deadline", mj::Value::Bool(g_plan.timedLoop)).set("owner_waits_with_deadline", mj::Value::Bool(g_plan.ownerTimed)).set("interrupted_selects", mj::Value::Int(g_plan.intr)); rec.set("plan", pl);
+         mj::Value pl = mj::Value::Obj(); pl.set("msgs", mj::Value::Int(g_plan.nMsgs)).set("pre_start_sends", mj::Value::Int(g_plan.preSends)).set("rounds", mj::Value::Int(g_plan.rounds)).set("extra_sender_msgs", mj::Value::Int(g_plan.nExtra)).set("internal_loop_waits_with_deadline", mj::Value::Bool(g_plan.timedLoop)).set("internal_loop_kind", mj::Value::Int(g_loopKind)).set("owner_waits_with_deadline", mj::Value::Bool(g_plan.ownerTimed)).set("interrupted_selects", mj::Value::Int(g_plan.intr)); rec.set("plan", pl);
          mj::Value h = mj::Value::Arr(); for (size_t k=0; k<M.handled.size(); k++) h.push(mj::Value::Int(M.handled[k])); rec.set("handled", h);
          mj::Value q = mj::Value::Arr(); for (size_t k=0; k<M.enqInt.size(); k++) q.push(mj::Value::Int(M.enqInt[k])); rec.set("enqueued_for_internal", q);
          mj::Value r = mj::Value::Arr(); for (size_t k=0; k<M.replies.size(); k++) r.push(mj::Value::Int(M.replies[k])); rec.set("replies", r);
          if (violated <= 20) fprintf(out, "%s\n", mj::ToString(rec).c_str());
       }
       if ((g_record)&&(ok)) {
-         fprintf(tf, "{\"e\":\"Reset\",\"tl\":%d}\n", g_plan.timedLoop ? 1 : 0);
+         fprintf(tf, "{\"e\":\"Reset\",\"tl\":%d}\n", g_loopKind);
          for (size_t k=0; k<g_trace.size(); k++) {const TraceLine & l = g_trace[k]; fprintf(tf, "{\"e\":\"%s\",\"t\":\"%c\",\"d\":\"%s\",\"a\":%ld,\"b\":%ld,\"c\":%ld}\n", l.e.c_str(), l.t, (l.d == 0) ? "int" : ((l.d == 1) ? "own" : "none"), l.a, l.b, l.c);}
          tracesWritten++; traceLines += (long) g_trace.size()+1;
       }
